@@ -203,6 +203,7 @@ def run(ctx):
         for pl in ([placement] if placement else ["form", "query", "both"]):
             check_cell(ctx, m, grant, gen, sup, cs, req, orig, pl)
     run_histories(ctx, m)
+    run_overlapping(ctx, m)
 
 
 def check_cell(ctx, m, grant, gen, sup, cs, req, orig, placement, shared=None):
@@ -242,6 +243,54 @@ def check_cell(ctx, m, grant, gen, sup, cs, req, orig, placement, shared=None):
         if grant == "refresh" and req and req.split() and not words(req) <= words(orig) and got != ["error", "invalid_scope"]:
             ctx.violation("C08:refresh:widening-not-refused", "a refresh request widening the scope was not refused",
                           dict(case, got=got))
+
+
+def run_overlapping(ctx, m):
+    """Two token requests that overlap on ONE server (the second runs while the first is inside its access-token generator, as happens
+    with threads or a re-entrant integrator): each response reports the scope of ITS OWN client and request."""
+    from authlib.oauth2.rfc6750 import BearerTokenGenerator
+    for inner_grant in ("client_credentials", "password"):
+        for outer_grant in ("client_credentials", "password", "refresh"):
+            for where in ("access", "refresh"):
+                store = S.Store()
+                state = {"armed": True, "inner": None}
+
+                def nested(**kw):
+                    if state["armed"] and kw["client"].client_id == "narrow":
+                        state["armed"] = False
+                        form = {"grant_type": inner_grant, "scope": "a b c d", "username": "alice", "password": "pw"}
+                        state["inner"] = srv.create_token_response(S.HReq("POST", "https://as.example/token", form, S.basic_header("wide", "sec")))
+                    return store.fresh("tok")
+                gen = BearerTokenGenerator(nested if where == "access" else (lambda **kw: store.fresh("at")),
+                                           nested if where == "refresh" else (lambda **kw: store.fresh("rt")))
+                srv = S.Server(store, scopes_supported=None, token_generator=gen)
+                g = S.make_grants(store, {"alice": "pw"})
+                for k in ("password", "client_credentials", "refresh"):
+                    srv.register_grant(g[k])
+                store.clients["narrow"] = S.Client("narrow", "sec", [], "a", ALL_GRANT_TYPES, [], "client_secret_basic")
+                store.clients["wide"] = S.Client("wide", "sec", [], "a b c d", ALL_GRANT_TYPES, [], "client_secret_basic")
+                form = {"grant_type": {"refresh": "refresh_token"}.get(outer_grant, outer_grant), "scope": "a b c d" if outer_grant != "refresh" else "a",
+                        "username": "alice", "password": "pw", "refresh_token": "rt0"}
+                if outer_grant == "refresh":
+                    store.tokens.append(S.Token("narrow", "alice", token_type="Bearer", access_token="at0", refresh_token="rt0", scope="a", expires_in=3600))
+                if where == "refresh" and outer_grant == "client_credentials":
+                    continue        # no refresh token is generated for this grant
+                outer = srv.create_token_response(S.HReq("POST", "https://as.example/token", form, S.basic_header("narrow", "sec")))
+                case = {"overlapping": True, "outer_grant": outer_grant, "inner_grant": inner_grant, "inner_runs_inside": where + "-token generator"}
+                ctx.case(case, ("overlap", outer_grant, inner_grant, where), "overlap:%s" % outer_grant)
+                for who, resp, allowed in (("outer(narrow)", outer, "a"), ("inner(wide)", state["inner"], "a b c d")):
+                    if resp is None:
+                        ctx.violation("C08:overlap:inner-not-run", "the overlapping request did not run", case)
+                        continue
+                    status, body, _ = resp
+                    got = body.get("scope") if isinstance(body, dict) else None
+                    ctx.compare("overlap:" + who, case, [status, got], [200, allowed])
+                    if status == 200 and not words(got) <= words(allowed):
+                        ctx.violation("C08:overlap:scope-exceeds-client-allowed", "with two token requests overlapping on one server, a response reports a scope (%s) "
+                                      "beyond its own client's allowed scope (%s)" % (got, allowed), dict(case, who=who))
+                saved = {t.client_id: t.scope for t in store.tokens if t.access_token != "at0"}
+                if not words(saved.get("narrow") or "") <= {"a"}:
+                    ctx.violation("C08:overlap:stored-scope-exceeds-client-allowed", "the token stored for the narrow client carries scope %r" % saved.get("narrow"), case)
 
 
 def run_histories(ctx, m):
